@@ -39,6 +39,7 @@ func runC15(c *an.Ctx) {
 	ruleS4(c)
 	ruleS6(c)
 	ruleS7(c)
+	ruleS8(c)
 }
 
 func relationFuncs(c *an.Ctx) []*ssa.Function {
